@@ -436,6 +436,8 @@ class ImageBatch(DataTensor):
         r"""Narrow image batch along specified tensor dimension."""
         data = self.tensor().narrow(dim, start, length)
         grid = self.grids()
+        if dim < 0:
+            dim += self.ndim
         if dim == 0:
             grid = grid[start : start + length]
         elif dim > 1:
